@@ -227,6 +227,9 @@ def run_config(w, c, idx, psize=None):
             out_path = sb.path("no-such-directory/out.bin")
         if cause == "output_device_full":
             out_path = "/dev/full"
+        if cause == "output_is_directory":
+            out_path = sb.path("outdir")
+            os.mkdir(out_path)
         if c["outp"] == "file":
             args += ["--output" if lng else "-o", out_path]
             if c["prior"] == "present":
@@ -253,9 +256,18 @@ def run_config(w, c, idx, psize=None):
             if cause == "non_utf8_keyring":
                 # the valid keyring with one byte that makes it ill-formed UTF-8 (inside a comment line)
                 sb.write("keyring.txt", b"# caf\xe9\n" + krtext.encode())
+            elif cause == "keyring_is_directory":
+                os.mkdir(kr_path)
+            elif cause == "non_utf8_keyring_path":
+                # the valid keyring, at a path whose name is not UTF-8; the variable is given as bytes further down
+                kr_path = os.fsencode(sb.dir) + b"/keyr\xffing.txt"
+                with open(kr_path, "wb") as f_:
+                    f_.write(krtext.encode())
             elif cause != "missing_keyring":
                 sb.write("keyring.txt", krtext)
-            if c["kr"] in ("opt", "both"):
+            if cause == "non_utf8_keyring_path":
+                kr_raw = kr_path
+            elif c["kr"] in ("opt", "both"):
                 args += ["--keyring" if lng else "-k", kr_path]
             else:
                 env["KESTREL_KEYRING"] = kr_path
@@ -274,6 +286,8 @@ def run_config(w, c, idx, psize=None):
         # a variable that only `key change-pass` reads; left over in the environment it must not matter to any other command
         env["KESTREL_NEW_PASSWORD"] = "stale new password"
         raw_env = None
+        if cause == "non_utf8_keyring_path":
+            raw_env = {b"KESTREL_KEYRING": kr_raw}
         if cause == "non_utf8_password":
             raw_env = {b"KESTREL_PASSWORD": b"p\xff\xfew"}
         elif cause != "unset_password":
@@ -283,7 +297,7 @@ def run_config(w, c, idx, psize=None):
         r = cli.kestrel(args, env=env, stdin=stdin, timeout=120, stdout_path="/dev/full" if cause == "stdout_full" else None,
                         raw_env=raw_env, setsid=(cause == "no_terminal"), stdout_closed=(cause == "stdout_closed"), stdin_pieces=pieces)
         # ---- classify the output ----
-        if cause in ("output_device_full", "stdout_full", "stdout_closed", "input_read_error"):
+        if cause in ("output_device_full", "stdout_full", "stdout_closed", "input_read_error", "output_is_directory"):
             got = b"n/a"
         elif cause == "output_dir_missing":
             got = None if not os.path.exists(out_path) else b"created"
@@ -336,7 +350,17 @@ def run_config(w, c, idx, psize=None):
             elif u:
                 named = "unknown" if u.group(1) == w.keys["alice"]["pub_enc"] and c["sender"] in ("absent", "badsum") else "wrong_unknown"
             else:
-                named = "nothing"
+                # other wording than the pinned tree's: what counts is WHAT is reported - the entry's name, or the encoding
+                # of the authenticated key; another entry's name or another key's encoding is a wrong report
+                has_name = re.search(r"(?<![\w-])alice(?![\w-])", errt) is not None
+                has_enc = w.keys["alice"]["pub_enc"] in errt
+                others = [n_ for n_ in re.findall(r"^Name = (.*)$", krtext, re.M) if n_ not in ("alice", "bob") and len(n_) >= 4]
+                other_named = any(re.search(r"(?<![\w-])%s(?![\w-])" % re.escape(n_), errt) for n_ in others)
+                other_enc = any(k_ != w.keys["alice"]["pub_enc"] and k_ in errt for k_ in re.findall(r"^PublicKey = (\S+)$", krtext, re.M))
+                if c["sender"] in ("absent", "badsum"):
+                    named = "unknown" if has_enc and not other_named else ("wrong_name" if (other_named or has_name) else "nothing")
+                else:
+                    named = "name" if has_name and not other_named and not other_enc else ("wrong_name" if other_named else ("wrong_unknown" if other_enc or has_enc else "nothing"))
         return {"ev": "cli", "id": "cfg%d" % idx, "cfg": c, "psize": psize, "args": [a if not a.startswith(sb.dir) else os.path.basename(a) for a in args],
                 "exit": r.rc, "errline": r.has_error_line, "out": out, "named": named, "stderr": errt[-300:]}
 
@@ -439,7 +463,7 @@ def c12(pid, tier, seed, selftest=False):
         elif c["cmd"] != "decrypt" and c["prior"] == "absent" and c["cause"] in ("none", "wrong_password", "unset_password", "bad_args"):
             if thorough or (c["long"] == c["alias"]):
                 sel.append(c)
-        elif c["cause"] in ("output_dir_missing", "output_device_full", "stdout_full", "stdout_closed"):
+        elif c["cause"] in ("output_dir_missing", "output_device_full", "stdout_full", "stdout_closed", "output_is_directory"):
             # the output cannot be written: not completed, exit 1 with a message
             if thorough or (c["long"] == c["alias"] and c["sender"] == "first" and c["kr"] == "opt" and c["inp"] == "file") or c["cmd"] == "key_generate":
                 sel.append(c)
@@ -480,7 +504,8 @@ def c13(pid, tier, seed, selftest=False):
     for c in configs:
         if c["cause"] == "none" or c["outp"] != "file":
             continue
-        if thorough or (c["long"] is False and c["alias"] is False and c["kr"] == "opt" and c["sender"] == "first"):
+        if thorough or (c["long"] is False and c["alias"] is False and c["sender"] == "first"
+                        and (c["kr"] == "opt" or (c["cause"] == "non_utf8_keyring_path" and c["kr"] == "env"))):
             sel.append(c)
     w = World(pid, tpl, seed)
     for c in sel:
@@ -586,7 +611,7 @@ def exec_gen_history(w, hid, initial, n, vias=None):
                 if e.rc == 0:
                     d = cli.kestrel(["decrypt", sb.path("m.ktl"), "-t", "bob", "-o", sb.path("m.out"), "-k", kr2, "--env-pass"],
                                     env={"KESTREL_PASSWORD": "bob-pw"})
-                    usable = d.rc == 0 and sb.read("m.out") == b"message %d" % k and ("File from: " + name) in d.err_text
+                    usable = d.rc == 0 and sb.read("m.out") == b"message %d" % k and name in d.err_text
                 # ... and with EXACTLY its password: the block's locked key opens under the password bytes as given, read by the
                 # specification (whatever the tool does to a password must be the same everywhere, so it may do nothing)
                 mblk = re.search(r"Name = %s\nPublicKey = (\S+)\nPrivateKey = (\S+)" % re.escape(name), after.decode("utf-8", "replace"))
@@ -800,7 +825,7 @@ def exec_life_history(w, hid, first, ops):
                     d = cli.kestrel(["decrypt", sb.path("m%d.ktl" % k), "-t", "bob", "-k", sb.path("kr.txt"), "--env-pass"],
                                     env={"KESTREL_PASSWORD": "bob-pw"})
                     outputs.append(d.err)
-                    ok = d.rc == 0 and d.out == b"hello" and "File from: lifekey" in d.err_text
+                    ok = d.rc == 0 and d.out == b"hello" and "lifekey" in d.err_text
                 evs.append({"ev": "life", "id": tag, "op": "use", "exit": 0 if ok else 1, "identity_kept": ok, "old_passwords_dead": True,
                             "salt_fresh": True, "pub_matches": True, "secret_leaked": leaked()})
     for e in evs:
@@ -874,7 +899,7 @@ def run_fuzz_file(pid, tpl, seed, idx, part):
         evs += got
         if p.returncode == 0 and len(got) == len(rest):
             break
-        if p.returncode == 2 and "internal error" in p.stderr:
+        if p.returncode == 2 and "internal error" in p.stderr and "/repo/" not in p.stderr:
             raise ToolError("driver: " + p.stderr[-500:])
         culprit = rest[len(got)]
         evs.append({"ev": "fuzz", "id": culprit["id"], "surface": culprit["surface"], "kind": culprit["kind"], "len": -1,
@@ -1011,10 +1036,27 @@ def c09(pid, tier, seed, selftest=False):
             i, v = iv
             r = cli.kestrel(v, env={"KESTREL_PASSWORD": "pw9", "KESTREL_NEW_PASSWORD": "pw10"} if len(v) == 4 and v[0] == "key" and len(v[2]) > 100 else {},
                             stdin=b"", timeout=30, cwd=sb.dir)
-            return {"ev": "argv", "id": "a%d" % i, "argv": v, "exit": r.rc, "errline": r.has_error_line, "timed_out": r.timed_out,
+            return {"ev": "argv", "id": "a%d" % i, "argv": v, "streams": "normal", "exit": r.rc, "errline": r.has_error_line, "timed_out": r.timed_out,
                     "stderr": r.err_text[-200:]}
         with cf.ThreadPoolExecutor(max_workers=NCPU) as ex:
             aevs = list(ex.map(one, list(enumerate(vectors))))
+        # the same tool with a standard stream that cannot be written (a full device): whatever it has to say - help, version,
+        # a public key, a re-locked key, an error - the outcome still is exit 0 or 1, never a panic
+        informational = [[], ["--help"], ["-h"], ["--version"], ["-v"], ["encrypt", "--help"], ["key", "extract-pub", wk, "--env-pass"],
+                         ["key", "change-pass", wk, "--env-pass"], ["key", "generate", "--env-pass"], ["decrypt", "x", "-t", "nobody", "-k", "x", "--env-pass"],
+                         ["password", "decrypt", "x", "--env-pass"], ["bogus"]]
+        fvec = informational + [v for i, v in enumerate(vectors) if i % (7 if thorough else 29) == 0]
+
+        def one_fault(ivs):
+            i, v, streams = ivs
+            r = cli.kestrel(v, env={"KESTREL_PASSWORD": "pw9", "KESTREL_NEW_PASSWORD": "pw10"}, stdin=b"streamkey\n", timeout=30, cwd=sb.dir,
+                            stdout_path="/dev/full" if streams == "stdout_full" else None, stderr_path="/dev/full" if streams == "stderr_full" else None)
+            return {"ev": "argv", "id": "s%d.%s" % (i, streams), "argv": v, "streams": streams, "exit": r.rc, "errline": r.has_error_line,
+                    "timed_out": r.timed_out, "stderr": r.err_text[-200:]}
+        with cf.ThreadPoolExecutor(max_workers=NCPU) as ex:
+            fevs = list(ex.map(one_fault, [(i, v, st_) for i, v in enumerate(fvec) for st_ in ("stdout_full", "stderr_full")]))
+        aevs += fevs
+        rep.extra["argv_runs_with_an_unwritable_stream"] = len(fevs)
         # the tool offered very large input FILES while it can only get 1 GiB of address space: rejecting (bad magic, bad
         # header, data after the final chunk) must not need memory that grows with the file
         w9 = World(pid, tpl, seed)
@@ -1056,7 +1098,7 @@ def c09(pid, tier, seed, selftest=False):
                 ev = {"exit": rc, "errline": "Error:" in own, "timed_out": False, "stderr": own[-200:], "rss_kb": int(m.group(1)) if m else -1}
             except subprocess.TimeoutExpired:
                 ev = {"exit": -999, "errline": False, "timed_out": True, "stderr": "", "rss_kb": -1}
-            ev.update({"ev": "argv", "id": "big%d" % i, "argv": [os.path.basename(x) if x.startswith(sb.dir) else x for x in v]})
+            ev.update({"ev": "argv", "id": "big%d" % i, "streams": "normal", "argv": [os.path.basename(x) if x.startswith(sb.dir) else x for x in v]})
             aevs.append(ev)
             vectors.append(ev["argv"])
     for v in vectors:
@@ -1078,7 +1120,7 @@ def validate_events_argv(rep, pid, evs):
         if pred.startswith("TOOL_"):
             raise ToolError("trace tooling mismatch " + pred)
         e = evs[ln - 1]
-        rep.violation("%s argv=%s" % (pred, json.dumps(e["argv"])), {"engine": "argv", "observed": e})
+        rep.violation("%s argv=%s streams=%s" % (pred, json.dumps(e["argv"]), e.get("streams", "normal")), {"engine": "argv", "observed": e})
 
 
 # --------------------------------------------------------------------------
